@@ -13,10 +13,10 @@
    Passwords are the prepared byte strings (PDFDocEncoding / SASLprep are an oracle outside the development).
 
    Domain (each a restriction the property text itself makes, see notes/C06.md): revisions 2-6; key lengths
-   40..128 in steps of 8; conforming permission words; direct objects hold no streams; a stream naming a crypt
-   filter has it as its only filter; no EFF entry; the encryption dictionary is an indirect object.  The last
-   three are the open known-finding classes decodeparms-array, eff-ignored, direct-encrypt-dict, each with a
-   witness below. *)
+   40..128 in steps of 8; conforming permission words; direct objects hold no streams; the Filter entry of a stream
+   is a name or an array of names (and a stream whose only filter is Crypt, given as a name, has a dictionary as
+   DecodeParms -- ISO 32000 Table 5).  The former finding classes decodeparms-array, eff-ignored and
+   direct-encrypt-dict are repaired in /repo (f8740d3, 0fbc00d, fbda92c) and are inside the theorems' domain now. *)
 From LV Require Import Base.Bytes Base.Sx Model.Obj Model.DocQ Gen.Crypto
   Model.Crypto.Word Model.Crypto.MD5 Model.Crypto.RC4 Model.Crypto.PKCS5 Model.Crypto.Handler Model.Crypto.Concrete
   Spec.Crypto.Iso Spec.Crypto.IsoConcrete
@@ -252,23 +252,31 @@ Theorem C06_example_empty_password_rejected :
   match open_document iconcrete ex_enc_v2 [] with WrongPassword => true | _ => false end = true.
 Proof. exact empty_password_rejected_v2. Qed.
 
-(* ---------------- witnesses of the open known-finding classes ---------------- *)
-(* eff-ignored: an EFF entry naming another crypt filter *)
-Theorem C06_eff_class_witness :
-  stream_cf ex_st (OStream [(bs "Type", OName (bs "EmbeddedFile"))] []) = CF_AESV2 /\
-  stream_method ex_ip_eff [(bs "Type", OName (bs "EmbeddedFile"))] = M_Identity.
-Proof. exact eff_class_witness. Qed.
+(* ---------------- the repaired finding classes, as instances ---------------- *)
+(* EFF names the crypt filter of embedded file streams (state and parameters related by state_matches) *)
+Theorem C06_example_eff :
+  state_matches ex_st_eff ex_ip_eff (zeros 16) /\
+  stream_cf ex_st_eff (OStream [(bs "Type", OName (bs "EmbeddedFile"))] []) = CF_Identity /\
+  stream_method ex_ip_eff [(bs "Type", OName (bs "EmbeddedFile"))] = M_Identity /\
+  stream_cf ex_st_eff (OStream [] []) = CF_AESV2.
+Proof. split; [exact ex_state_matches_eff | exact eff_example]. Qed.
 
-(* decodeparms-array: DecodeParms given as the array parallel to Filter *)
-Theorem C06_decodeparms_array_class_witness :
-  stream_cf ex_st (OStream ex_sd_dparr []) = CF_Identity /\ stream_method ex_ip ex_sd_dparr = M_AESV2.
-Proof. exact decodeparms_array_class_witness. Qed.
+(* DecodeParms given as the array parallel to Filter, Crypt in second place *)
+Theorem C06_example_decodeparms_array :
+  stream_cf ex_st (OStream ex_sd_dparr []) = CF_Identity /\ stream_method ex_ip ex_sd_dparr = M_Identity /\
+  stream_ok ex_ip ex_sd_dparr.
+Proof. exact decodeparms_array_example. Qed.
 
-(* direct-encrypt-dict: the encryption dictionary as a direct object of the trailer *)
-Theorem C06_direct_encrypt_class_witness :
-  is_encrypted ex_doc_direct = false /\
-  match find_encrypt ex_doc_direct with Some (None, _) => true | _ => false end = true.
-Proof. exact direct_encrypt_class_witness. Qed.
+(* the encryption dictionary as a direct object of the trailer: recognised, and the document opens *)
+Theorem C06_example_direct_encrypt :
+  is_encrypted ex_doc_direct = true /\
+  match find_encrypt ex_doc_direct with Some (None, _) => true | _ => false end = true /\
+  match doc_decrypt concrete ex_doc_direct (bs "user") with
+  | DOk d' _ => bytes_eqb (sx_print (objmap_to_sx (d_objects d'))) (sx_print (objmap_to_sx (d_objects ex_doc)))
+                && match dict_get (d_trailer d') K_Encrypt with None => true | _ => false end
+  | _ => false
+  end = true.
+Proof. exact direct_encrypt_example. Qed.
 
 Print Assumptions C06_constants.
 Print Assumptions C06_padding.
@@ -305,6 +313,6 @@ Print Assumptions C06_example_iso_encrypt_lopdf_decrypt.
 Print Assumptions C06_example_lopdf_encrypt_iso_decrypt.
 Print Assumptions C06_example_writers_agree.
 Print Assumptions C06_example_empty_password_rejected.
-Print Assumptions C06_eff_class_witness.
-Print Assumptions C06_decodeparms_array_class_witness.
-Print Assumptions C06_direct_encrypt_class_witness.
+Print Assumptions C06_example_eff.
+Print Assumptions C06_example_decodeparms_array.
+Print Assumptions C06_example_direct_encrypt.
